@@ -37,7 +37,8 @@ FIELD_MODES = {
     "organize_by": {"ibm_db2"}, "index_in": {"ibm_db2"},
     "inherits": {"postgres"},
     "is_global": {"oracle"}, "organization_index": {"oracle"}, "storage": {"oracle"},
-    "skewed_by": {"hql", "athena"}, "into_buckets": {"hql", "athena"}, "clustered_on": {"hql", "athena"},
+    # declared on the HQL class itself: Athena inherits the class but not the mode (observed on the pinned tree: never at top level in athena)
+    "skewed_by": {"hql"}, "into_buckets": {"hql"}, "clustered_on": {"hql"},
     "primary_key_enforced": {"snowflake"}, "clone": {"snowflake"}, "with_tag": {"snowflake"},
     "escaped_by": {"athena"},
     "temp": {"hql", "redshift", "oracle", "athena"},
@@ -48,7 +49,7 @@ FIELD_MODES = {
     "fields_terminated_by": {"hql", "databricks", "athena"}, "lines_terminated_by": {"hql", "databricks", "athena"},
     "map_keys_terminated_by": {"hql", "databricks", "athena"}, "collection_items_terminated_by": {"hql", "databricks", "athena"},
     "clustered_by": {"hql", "spark_sql"}, "options": {"bigquery", "spark_sql"},
-    "transient": {"hql", "databricks", "athena"}, "external": {"hql", "snowflake", "athena"},
+    "transient": {"hql", "databricks"}, "external": {"hql", "snowflake", "athena"},
     "cluster_by": {"bigquery", "snowflake"},
 }
 
